@@ -79,13 +79,17 @@ def gen_array(rnd, kind):
         data = [rnd.choice([round(rnd.uniform(-7, 7), 1), float(rnd.randint(-6, 6))]) for _ in range(n)]
     else:
         data = [rnd.choice([0.0, 1.0, 0.5, round(rnd.uniform(0, 1), 3), round(rnd.uniform(-0.2, 1.2), 2)]) for _ in range(n)]
+    if kind == "thr" and n and rnd.random() < 0.08:
+        data[rnd.randrange(n)] = rnd.choice([float("inf"), float("-inf")])  # thresholds beyond every score
     a = {"shape": shape, "data": data, "kind": kind, "readonly": rnd.random() < 0.25,
-         "scalar_as": rnd.choice(["py", "np", "0d"]) if not shape else None}
+         "scalar_as": rnd.choice(["py", "np", "0d", "int"]) if not shape else None}
+    if a["scalar_as"] == "int":
+        a["data"] = [float(round(data[0])) if data[0] == data[0] and abs(data[0]) != float("inf") else 0.0]
     if shape and rnd.random() < 0.12:
-        a["as"] = "list"  # the caller passes a (nested) Python list
+        a["as"] = rnd.choice(["list", "list", "tuple"])  # the caller passes a (nested) Python list / tuple
     elif shape and kind == "thr" and rnd.random() < 0.1:
         a["as"] = "int"  # integer-dtype thresholds
-        a["data"] = [float(round(v)) for v in data]
+        a["data"] = [float(round(v)) if abs(v) != float("inf") else 0.0 for v in data]
     return a
 
 
@@ -184,7 +188,7 @@ def generate(rnd, tier):
                 op.update({"op": "rate", "name": rnd.choice(RATES + list(RATE_ALIAS)), "x": rnd.choice(thr_idx)})
             elif k < 0.62:
                 op.update({"op": "thr_at", "name": rnd.choice(THR + list(THR_ALIAS)), "x": rnd.choice(rate_idx),
-                           "method": rnd.choice(["linear", "lower", "higher"])})
+                           "method": rnd.choice(["linear", "lower", "higher"]) if rnd.random() < 0.97 else "nearest"})
             elif k < 0.70:
                 op.update({"op": "thr_at_metric", "x": rnd.choice(rate_idx), "metric": rnd.choice(["fnr", "fpr", "tpr", "callable", "callable"]),
                            "points": rnd.choice([None, None, 5, 17, "array", "array"]), "points_x": points_idx,
@@ -303,6 +307,8 @@ def build_arg(a):
         v = float(a["data"][0])
         if a.get("scalar_as") == "np":
             return np.float64(v)
+        if a.get("scalar_as") == "int":
+            return int(v)
         if a.get("scalar_as") == "0d":
             arr = np.asarray(v)
             if a.get("readonly"):
@@ -312,6 +318,10 @@ def build_arg(a):
     arr = np.asarray(a["data"], dtype=float).reshape(a["shape"])
     if a.get("as") == "list":
         return arr.tolist()
+    if a.get("as") == "tuple":
+        def tup(x):
+            return tuple(tup(v) for v in x) if isinstance(x, list) else x
+        return tup(arr.tolist())
     if a.get("as") == "int":
         arr = arr.astype(np.int64)
     if a.get("readonly"):
@@ -417,7 +427,7 @@ def shape_law(o, op, x, r, L):
     """Returns an error string or None."""
     k = op["op"]
     X = np.shape(x) if x is not None else None
-    scalar_in = x is not None and not isinstance(x, (np.ndarray, list))
+    scalar_in = x is not None and not isinstance(x, (np.ndarray, list, tuple))
     if k == "cm":
         if not isinstance(r, L.ConfusionMatrix) or r.matrix.shape != X + (2, 2) or not r.binary:
             return f"cm(shape {X}) returned matrix of shape {getattr(getattr(r, 'matrix', None), 'shape', None)}"
@@ -559,8 +569,18 @@ def execute(scn, ctx):
         return t
 
     held = []  # (step, description, value, canon at return time): results handed to the caller earlier
+    import warnings as _warnings
+
+    env0 = (dict(np.geterr()), len(_warnings.filters), np.get_printoptions()["precision"])
 
     def check_everything_unchanged(where, tags):
+        env1 = (dict(np.geterr()), len(_warnings.filters), np.get_printoptions()["precision"])
+        if env1 != env0:
+            viol.append({"invariant": "C10.process_state_unchanged", "tags": tags,
+                         "detail": f"NumPy error state / warnings filters / print options changed {where}: {env0} -> {env1}"})
+            np.seterr(**env0[0])
+            del _warnings.filters[: max(0, len(_warnings.filters) - env0[1])]
+            np.set_printoptions(precision=env0[2])
         for h in list(held):
             if M.canon(h[2]) != h[3]:
                 viol.append({"invariant": "C10.result_stable", "tags": tags,
@@ -730,6 +750,13 @@ def execute(scn, ctx):
                 viol.append({"invariant": "C10.readonly_argument_rejected", "tags": tags,
                              "detail": f"{k}({tags['name']}) raises {type(res['value']).__name__}: {res['value']} for a read-only argument array but works on a "
                                        f"writable copy: the query tries to write into the caller's array [op {step}]"})
+            elif k == "thr_at" and not isinstance(res["value"], ValueError) and (
+                    op.get("method") not in ("linear", "lower", "higher")
+                    or len(o.pos if THR_ALIAS.get(op["name"], op["name"]) in ("threshold_at_tpr", "threshold_at_fnr") else
+                           o.neg if THR_ALIAS.get(op["name"], op["name"]) in ("threshold_at_tnr", "threshold_at_fpr") else np.concatenate([o.pos, o.neg])) == 0):
+                viol.append({"invariant": "C10.documented_error", "tags": tags,
+                             "detail": f"{op['name']}(method={op.get('method')!r}) raised {type(res['value']).__name__}: {res['value']}; a ValueError is documented for an "
+                                       f"unknown method / a class without scores [op {step}]"})
             elif type(exp) is not type(res["value"]):
                 viol.append({"invariant": "C10.twin_equal", "tags": tags,
                              "detail": f"{k}({tags['name']}) raised {type(res['value']).__name__} on the shared object, {type(exp).__name__} on a pristine twin [op {step}]"})
